@@ -492,11 +492,77 @@ def gen_batch(seed, b):
     return {"batch": b, "ops": ops, "runs": runs}
 
 
+SCENARIO_C = """
+int g0 = 3;
+int tab[4] = {1, 2, 3, 4};
+int helper(int a) { if (a > 3) { return a - 1; } return a + tab[a & 3]; }
+int entry0(int x) {
+  int i; int s = 0;
+  for (i = 0; i < x; i += 1) {
+    if (s > 100) { s = helper(s) - g0; } else { s += helper(i); }
+    switch (i & 3) { case 0: s ^= 5; break; case 2: s += 9; break;
+                     default: s -= 1; break; }
+  }
+  return s + helper(x);
+}
+"""
+
+
+def scenario_batch():
+    """A small hand-written batch that is part of every run: delicate
+    histories that the seeded batches only hit now and then (the same object
+    saved before / after it is linked, linked once or several times, on the
+    one target with linker relaxation; an assembly that fails inside a repeat
+    block followed by one that uses repeat; a failed assembly with a pending
+    literal followed by a good one)."""
+    canon = {"hashseed": 0, "idhash": None, "noise": 0,
+             "clock": {"start": 1.0e9, "step": 0.0}}
+    other = {"hashseed": 1234, "idhash": 99, "noise": 0,
+             "clock": {"start": 1.1e9, "step": 0.37}}
+    ops = [
+        {"id": "scn-rvc", "src": SCENARIO_C, "march": "riscv:rvc", "opt": 1,
+         "debug": False, "layout": 0, "entry": "entry0",
+         "outputs": ["obj", "img", "hex"]},
+        {"id": "scn-rvc-O2", "src": SCENARIO_C, "march": "riscv:rvc",
+         "opt": 2, "debug": True, "layout": 1, "entry": "entry0",
+         "outputs": ["obj", "img", "exe"]},
+        {"id": "scn-asm-fail-in-repeat", "lang": "asm", "march": "arm",
+         "opt": 0, "outputs": ["obj"],
+         "src": "section code\nrepeat 3\ndd 5\nbogus_mnemonic 3\n"},
+        {"id": "scn-asm-repeat", "lang": "asm", "march": "arm", "opt": 0,
+         "outputs": ["obj"],
+         "src": "section code\nl0:\nrepeat 2\ndd 7\ndb 1\nendrepeat\n"
+                "dd 9\n"},
+        {"id": "scn-asm-fail-literal", "lang": "asm", "march": "arm",
+         "opt": 0, "outputs": ["obj"],
+         "src": "section code\nlx:\n  ldr r0, =lx\n  bogus r1\n"},
+        {"id": "scn-asm-good", "lang": "asm", "march": "arm", "opt": 0,
+         "outputs": ["obj"],
+         "src": "section code\nl1:\n  mov r1, 5\n  dd 77\n"},
+    ]
+    runs = [
+        {"cfg": canon, "seq": [0, 1, 3, 5],
+         "out_lists": [["obj", "img", "hex"], ["obj", "img", "exe"],
+                       ["obj"], ["obj"]]},
+        {"cfg": canon, "seq": [2, 3, 4, 5, 0, 1],
+         "out_lists": [["obj"], ["obj"], ["obj"], ["obj"],
+                       ["img", "hex", "obj"], ["exe", "img", "obj"]]},
+        {"cfg": other, "seq": [1, 0, 0, 4, 5, 2, 3],
+         "out_lists": [["img", "obj", "exe"], ["hex", "img", "obj"],
+                       ["obj", "img", "hex"], ["obj"], ["obj"], ["obj"],
+                       ["obj"]]},
+    ]
+    return {"batch": "scenario", "ops": ops, "runs": runs}
+
+
 def ops_of_run(batch, run, upto=None):
     """The op dicts one simulated process executes, with the per-execution
     order of the outputs applied."""
     out = []
     seq = run["seq"] if upto is None else run["seq"][:upto]
+    if "out_lists" in run:
+        return [dict(batch["ops"][i], outputs=list(run["out_lists"][pos]))
+                for pos, i in enumerate(seq)]
     for pos, i in enumerate(seq):
         op = batch["ops"][i]
         k = run.get("out_orders", [0] * len(run["seq"]))[pos]
@@ -794,7 +860,7 @@ def explore(tier, seed, args, sw):
     nb = args.batches or {"quick": 32, "thorough": 900}[tier]
     workers = int(os.environ.get("VERIF_WORKERS", "0")) or \
         min(16, os.cpu_count() or 1)
-    batches = [gen_batch(seed, b) for b in range(nb)]
+    batches = [gen_batch(seed, b) for b in range(nb)] + [scenario_batch()]
     # every worker run of every batch is an independent subprocess
     jobs = [(bi, ri) for bi, b in enumerate(batches)
             for ri in range(len(b["runs"]))]
